@@ -77,3 +77,42 @@ Theorem C04_critical_pair_order : forall rec E vp sp vc sc ty st s st',
   end.
 Proof. exact critical_pair_order. Qed.
 Print Assumptions C04_critical_pair_order.
+
+(* `lift`: the call passes the free variables of the lifted statement (BTreeSet order, duplicate-free);
+   the new definition has one fresh parameter per free variable in the same order with the same
+   name/chirality/type, pairwise distinct; its body is the statement with the free variables renamed
+   to the parameters; its label is new (printed form) with respect to the labels used so far. *)
+Theorem C04_lift_closed : forall rec E s st r st',
+  lift rec E s st = SOk (r, st') ->
+  let fvs := typed_free_vars s in
+  let params := fresh_params fvs (s_max st) in
+  ssorted cbinding_compare fvs /\ NoDup fvs /\ NoDup (cids params) /\
+  Forall2 (fun p f => fst (cbvar p) = fst (cbvar f) /\ cbchi p = cbchi f /\ cbty p = cbty f) params fvs /\
+  exists label body st3,
+    fst label = ("lift_" ++ e_label E ++ "_")%string /\
+    (s_max st + N.of_nat (List.length fvs) < snd label)%N /\
+    existsb (fun u => String.eqb (show_cident u) (show_cident label)) (s_used st) = false /\
+    r = Call label (shrink_context (e_codata E) fvs) /\
+    rec (subst_stmt (combine (cids fvs) (cvars params)) s)
+        (mksst (snd label) (s_lifted st) (label :: s_used st)) = SOk (body, st3) /\
+    st' = mksst (s_max st3) (mkd label (shrink_context (e_codata E) params) body :: s_lifted st3) (s_used st3).
+Proof. exact lift_closed. Qed.
+Print Assumptions C04_lift_closed.
+
+(* max_id only grows and bounds the id of every variable of the output (binders and occurrences,
+   parameters of lifted definitions included) - what linearization relies on. *)
+Theorem C04_shrink_ids_bounded : forall p q,
+  ids_bounded p = true -> shrink_prog p = SOk q ->
+  (fspmax p <= pmax q)%N /\ forallb (def_le (pmax q)) (pdefs q) = true.
+Proof. exact shrink_ids_bounded. Qed.
+Print Assumptions C04_shrink_ids_bounded.
+
+(* every id introduced (lifted labels, their parameters, binders) is > the input's max_id, <= the
+   output's max_id, and the introduced ids are pairwise distinct *)
+Theorem C04_shrink_fresh_ids : forall p q,
+  ids_bounded p = true -> shrink_prog p = SOk q ->
+  let B := lifted_binders (pdefs q) in
+  (forall x, In x B -> (fspmax p < x)%N -> (x <= pmax q)%N) /\
+  NoDup (filter (fun x => N.ltb (fspmax p) x) B).
+Proof. exact shrink_fresh_ids. Qed.
+Print Assumptions C04_shrink_fresh_ids.
